@@ -43,7 +43,9 @@ def stream_vs_singles(cfg, b):
         else:
             r = decode_full(Response, part, True, cc, enc)
         if r.crash is not None:
-            assume(False)
+            from engine.native import exc_tag
+
+            return [("single-decode-crashes-where-the-stream-does-not:%s" % exc_tag(r.crash), False)]
         exp_events.extend(r.events)
         if r.err is not None:
             exp_err = r.err
@@ -83,7 +85,8 @@ def partitions(tier, seed):
     for cc in ccs:
         cmds = dict(G.commands(cc, minimal=quick))
         rsps = {l: (e, d) for l, e, d in G.responses(cc, minimal=quick)}
-        combos = [("nosess", "nosess"), ("sess1", "sess1"), ("nosess", "fail"), ("sess1", "fail")]
+        rsps.update({l: (e, d) for l, e, d in G.responses(cc, minimal=False) if l == "fail-badtag"})
+        combos = [("nosess", "nosess"), ("sess1", "sess1"), ("nosess", "fail"), ("sess1", "fail"), ("nosess", "fail-badtag")]
         if "decrypt" in cmds:
             combos.append(("decrypt", "sess1"))
         for cl, rl in combos:
@@ -96,6 +99,25 @@ def partitions(tier, seed):
             at = [x for x in tr if x[4] == "attr"][0][2]
             c2 = c[:at] + bytes([c[at] | 0x40]) + c[at + 1:]
             pairs.append(("%s-sess1enc+encrypt" % sp.cc_name(cc), cc, c2, rsps["encrypt"][1], True))
+    # two sessions, the encrypt request on the first / on the second one only (any session may request it)
+    for cc in ccs:
+        rs = {l: (e, d) for l, e, d in G.responses(cc, minimal=False)}
+        cs = dict(G.commands(cc, minimal=False))
+        if "encrypt-2nd" not in rs or "sess2" not in cs:
+            continue
+        c = cs["sess2"]
+        tr = sp.trace_of(sp.cmd_key(), c)
+        ats = [x[2] for x in tr if x[4] == "attr"]
+        for which in (0, 1):
+            c2 = bytearray(c)
+            c2[ats[which]] |= 0x40
+            r = bytearray(rs["encrypt-2nd"][1])
+            rtr = sp.trace_of(sp.rsp_key(), bytes(r), cc=cc, enc=True)
+            rat = [x[2] for x in rtr if x[4] == "attr"]
+            # the response echoes the attribute on the same session
+            r[rat[0]] = 0x41 if which == 0 else 0x01
+            r[rat[1]] = 0x41 if which == 1 else 0x01
+            pairs.append(("%s-sess2enc%d+encrypt" % (sp.cc_name(cc), which + 1), cc, bytes(c2), bytes(r), True))
     parts = []
 
     def mk(label, msgs, attrs=False):
